@@ -677,4 +677,86 @@ def tensorSpectrum (ι : Rat → R) (ρs : List (C11.Root R)) (T : NDA (List Rat
 
 end fft
 
+/-! ## the lattice sheet of the Berg–Lüscher method: triangles of a cell, closedness, smoothness
+
+Specification-level vocabulary of the integrality theorems (`Props/C19.lean`, `bl_charge_integer`), with
+decision procedures the driver evaluates on the harness' textures. -/
+
+/-- the vector of cell `(i, j)` -/
+abbrev pv (o : Fld) (i j : Nat) : V3 := cellV o [i, j]
+
+/-- the triangle `(v₀, v₁, v₂)` = (cell, east, north) of cell `(i, j)` … -/
+def tNE (o : Fld) (i j : Nat) : Tri := triOf (pv o i j) (pv o (i + 1) j) (pv o i (j + 1))
+/-- … `(v₀, v₂, v₃)` = (cell, north, west) … -/
+def tNW (o : Fld) (i j : Nat) : Tri := triOf (pv o i j) (pv o i (j + 1)) (pv o (i - 1) j)
+/-- … `(v₀, v₃, v₄)` = (cell, west, south) … -/
+def tSW (o : Fld) (i j : Nat) : Tri := triOf (pv o i j) (pv o (i - 1) j) (pv o i (j - 1))
+/-- … `(v₀, v₄, v₁)` = (cell, south, east) -/
+def tSE (o : Fld) (i j : Nat) : Tri := triOf (pv o i j) (pv o i (j - 1)) (pv o (i + 1) j)
+
+/-- every cell of the mesh is valid -/
+def AllValid (o : Fld) : Prop := ∀ i j, i < o.mesh.nAt 0 → j < o.mesh.nAt 1 → o.valid.get [i, j] = true
+
+/-- the outermost cells all hold the vector `r` -/
+def UniformRim (o : Fld) (r : V3) : Prop :=
+  ∀ i j, i < o.mesh.nAt 0 → j < o.mesh.nAt 1 → (i = 0 ∨ i + 1 = o.mesh.nAt 0 ∨ j = 0 ∨ j + 1 = o.mesh.nAt 1) →
+    cellV o [i, j] = r
+
+/-- what a lattice triangle `(a, b, c)` has to satisfy: unit vectors, no two of them antipodal, and not
+the exceptional configuration (coplanar with `1 + a·b + b·c + c·a < 0`, solid angle exactly half the
+sphere) in which `bergluescher_angle`'s guard `triple product == 0` returns `0` instead of `±2π` -/
+def GoodTri (a b c : V3) : Prop :=
+  a.normSq = 1 ∧ b.normSq = 1 ∧ c.normSq = 1 ∧ 1 + V3.dot a b ≠ 0 ∧ 1 + V3.dot b c ≠ 0 ∧ 1 + V3.dot c a ≠ 0 ∧
+  ((triOf a b c).t = 0 → 0 < 1 + V3.dot a b + V3.dot b c + V3.dot c a)
+
+instance (a b c : V3) : Decidable (GoodTri a b c) := by unfold GoodTri; infer_instance
+
+/-- the triangle covers less than a quarter of the sphere: `Re N = 1 + a·b + b·c + c·a > 0` -/
+def SmallTri (a b c : V3) : Prop := 0 < 1 + V3.dot a b + V3.dot b c + V3.dot c a
+
+instance (a b c : V3) : Decidable (SmallTri a b c) := by unfold SmallTri; infer_instance
+
+/-- A CLOSED SHEET of unit vectors: every cell valid, the outermost cells all equal to the unit vector
+`r`, non-degenerate cells, and the four right triangles of every lattice square are good -/
+structure ClosedSheet (o : Fld) (r : V3) : Prop where
+  valid : AllValid o
+  rim : UniformRim o r
+  runit : r.normSq = 1
+  c0 : o.mesh.cellAt 0 ≠ 0
+  c1 : o.mesh.cellAt 1 ≠ 0
+  good : ∀ i j, i + 1 < o.mesh.nAt 0 → j + 1 < o.mesh.nAt 1 →
+    GoodTri (pv o i j) (pv o (i + 1) j) (pv o i (j + 1)) ∧
+    GoodTri (pv o (i + 1) j) (pv o (i + 1) (j + 1)) (pv o i j) ∧
+    GoodTri (pv o (i + 1) (j + 1)) (pv o i (j + 1)) (pv o (i + 1) j) ∧
+    GoodTri (pv o i (j + 1)) (pv o i j) (pv o (i + 1) (j + 1))
+
+/-- a SMOOTH sheet: every lattice triangle covers less than a quarter of the sphere -/
+def SmoothSheet (o : Fld) : Prop :=
+  ∀ i j, i + 1 < o.mesh.nAt 0 → j + 1 < o.mesh.nAt 1 →
+    SmallTri (pv o i j) (pv o (i + 1) j) (pv o i (j + 1)) ∧
+    SmallTri (pv o (i + 1) j) (pv o (i + 1) (j + 1)) (pv o i j) ∧
+    SmallTri (pv o (i + 1) (j + 1)) (pv o i (j + 1)) (pv o (i + 1) j) ∧
+    SmallTri (pv o i (j + 1)) (pv o i j) (pv o (i + 1) (j + 1))
+
+/-- decision procedure for `ClosedSheet` -/
+def closedSheetB (o : Fld) (r : V3) : Bool :=
+  allLt (o.mesh.nAt 0) (fun i => allLt (o.mesh.nAt 1) fun j =>
+    o.valid.get [i, j] &&
+    decide ((i = 0 ∨ i + 1 = o.mesh.nAt 0 ∨ j = 0 ∨ j + 1 = o.mesh.nAt 1) → cellV o [i, j] = r)) &&
+  decide (r.normSq = 1) && decide (o.mesh.cellAt 0 ≠ 0) && decide (o.mesh.cellAt 1 ≠ 0) &&
+  allLt (o.mesh.nAt 0 - 1) (fun i => allLt (o.mesh.nAt 1 - 1) fun j =>
+    decide (GoodTri (pv o i j) (pv o (i + 1) j) (pv o i (j + 1)) ∧
+      GoodTri (pv o (i + 1) j) (pv o (i + 1) (j + 1)) (pv o i j) ∧
+      GoodTri (pv o (i + 1) (j + 1)) (pv o i (j + 1)) (pv o (i + 1) j) ∧
+      GoodTri (pv o i (j + 1)) (pv o i j) (pv o (i + 1) (j + 1))))
+
+/-- decision procedure for `SmoothSheet` -/
+def smoothSheetB (o : Fld) : Bool :=
+  allLt (o.mesh.nAt 0 - 1) (fun i => allLt (o.mesh.nAt 1 - 1) fun j =>
+    decide (SmallTri (pv o i j) (pv o (i + 1) j) (pv o i (j + 1)) ∧
+      SmallTri (pv o (i + 1) j) (pv o (i + 1) (j + 1)) (pv o i j) ∧
+      SmallTri (pv o (i + 1) (j + 1)) (pv o i (j + 1)) (pv o (i + 1) j) ∧
+      SmallTri (pv o i (j + 1)) (pv o i j) (pv o (i + 1) (j + 1))))
+
+
 end DFV.C19
